@@ -1,0 +1,28 @@
+/*
+ * Verification hook points. Compiled out unless OOMD_VERIF is defined.
+ *
+ * With -DOOMD_VERIF a test harness may install a callback that is invoked at
+ * named points, always while the lock protecting the reported state is held and
+ * after the state change, so that a recorded sequence of points is a
+ * linearisation of the critical sections. Nothing is installed by default.
+ */
+#pragma once
+
+#ifdef OOMD_VERIF
+#include <atomic>
+
+namespace Oomd {
+namespace Verif {
+using PointFn = void (*)(const char* tag, long a, long b);
+inline std::atomic<PointFn> point{nullptr};
+inline void at(const char* tag, long a = 0, long b = 0) {
+  if (auto fn = point.load(std::memory_order_acquire)) {
+    fn(tag, a, b);
+  }
+}
+} // namespace Verif
+} // namespace Oomd
+#define OOMD_VERIF_POINT(tag, a, b) ::Oomd::Verif::at((tag), (a), (b))
+#else
+#define OOMD_VERIF_POINT(tag, a, b) ((void)0)
+#endif
